@@ -111,6 +111,29 @@ pub fn sources() -> Vec<String> {
         v.push(format!("#[derive(Debug)]\n#[cfg_attr(all(), derive(Logos))]\n{body}"));
         v.push(format!("#[repr(u8)]\n{body}"));
     }
+    // FOREIGN attributes of unusual token shapes, at enum, variant and field level: every one of them
+    // belongs to somebody else and must come out token for token (raw-string values, nested cfg_attr,
+    // paths that merely END in logos / token / regex, groups holding the words token / regex / logos,
+    // empty and repeated derive lists)
+    let foreign = [
+        "doc = r#\"raw \"doc\" with # and \\ \"#", "doc = \"two\\nlines\"", "cfg_attr(all(), cfg_attr(all(), allow(dead_code)))", "cfg_attr(any(), logos(skip \" \"))", "serde(rename = \"x\", alias = \"token\")",
+        "foo::bar(baz(qux = \"(\"), [1, 2], {3})", "deprecated(since = \"1.0\", note = \"regex\")", "must_use = \"token\"", "foo(token(\"a\"), regex(\"b\"), logos(skip))", "foo::logos(skip \" \")", "foo::token(\"a\")", "x::regex(\"a\")",
+        "derive()", "rustfmt::skip", "cfg(any(feature = \"logos\", not(feature = \"token\")))", "doc(alias = \"#[token(\\\"a\\\")]\")", "foo = 1.5e3", "foo = b'\\''", "foo(r#type = 1, r#fn)",
+    ];
+    for fa in foreign {
+        v.push(format!("#[{fa}]\n#[derive(Logos, Debug)]\n#[{fa}]\n#[logos(skip \" \")]\n#[{fa}]\nenum T {{\n    #[{fa}] #[token(\"a\")] #[{fa}] A,\n    #[regex(\"b+\")] B(#[{fa}] u8),\n    #[{fa}] C,\n}}\n"));
+        v.push(format!("#[derive(Debug)]\n#[{fa}]\n#[derive(Clone, logos::Logos)]\nenum T<'a> {{\n    #[token(\"a\")] #[{fa}] A(#[{fa}] #[logos(x)] &'a str),\n}}\n"));
+    }
+    for sh in [
+        "enum T<const N: usize> { #[token(\"a\")] A, #[regex(\"b+\", |_| [0u8; N])] B([u8; N]) }",
+        "#[logos(type X = u8)] enum T<'a, X: 'a + Copy = u8, const N: usize = 3> where [X; N]: Sized { #[regex(\"a+\", cb)] A(&'a [X; N]), #[token(\"b\")] B }",
+        "enum T { #[token(\"a\")] A(::std::string::String), #[token(\"b\")] B(Vec<Option<(u8, [u16; 2])>>), #[token(\"c\")] C(fn(u8) -> u8), #[token(\"d\")] D(Box<dyn Fn(&str) -> usize + Send + 'static>) }",
+        "#[derive(Logos)] #[derive(Logos)] enum T { #[token(\"a\")] A }",
+        "pub(super) enum T { #[token(\"a\")] A = 1 << 2, #[token(\"b\")] B = { 7 }, C = -1 }",
+    ] {
+        v.push(format!("#[derive(Logos)]\n{sh}\n"));
+        v.push(format!("#[derive(Debug, Logos, Clone)]\n#[allow(dead_code)]\n{sh}\n"));
+    }
     for sh in shapes {
         for d in ["Logos", "Debug, Logos, Clone", "Debug, logos::Logos"] {
             v.push(format!("#[derive({d})]\n{sh}\n"));
